@@ -54,7 +54,8 @@ class World:
     probe_min_runs = 500
     required_probes = ["coarser_add_accepted_or_refused", "convert_4_3", "convert_3_2", "convert_3_1", "convert_2_0",
                        "convert_1_0", "convert_multi_step", "add_after_conversion", "first_add_sets_resolution",
-                       "container_passthrough", "type_level_add_into_pathways", "spectrum_object_view"]
+                       "container_passthrough", "type_level_add_into_pathways", "spectrum_object_view",
+                       "derived_spectrum_of_a_stored_block_modified", "first_data_assigned_through_the_data_property"]
     required_faults = list(FAULT_KINDS)
     components = {
         "real": ["TwoDResponse / TwoDSpectrumBase: _add_data, set_resolution, _convert_resolution, d__data getter/setter "
@@ -100,8 +101,14 @@ class World:
                 ops.append({"op": "setres", "r": rng.randrange(5)})
             elif r < faultrate + 0.2:
                 ops.append({"op": "container"})
+            elif r < faultrate + 0.27:
+                ops.append({"op": "derive", "v": rng.randrange(8), "how": rng.randrange(4)})
+            elif r < faultrate + 0.32:
+                ops.append({"op": "setdata", "d": rng.randrange(8), "tag": rng.randrange(len(TAGS)), "pay": rng.randrange(1 << 30)})
             else:
-                if i == 0 or rng.random() < 0.5:
+                if i == 0 and rng.random() < 0.15:
+                    ops.append({"op": "setdata", "d": rng.randrange(8), "tag": rng.randrange(len(TAGS)), "pay": rng.randrange(1 << 30)})
+                elif i == 0 or rng.random() < 0.5:
                     ops.append(self._gen_add(rng, start if rng.random() < 0.7 else None))
                 else:
                     ops.append(self._gen_add(rng))
@@ -430,6 +437,85 @@ class World:
                     ctx.probe("add_after_conversion")
                 do_add(idx, lvl, dt, tag, payload(op["pay"]), cls,
                        "op %d _add_data(resolution=%r, dtype=%r, tag=%r) at storage %s" % (idx, lvl, dt, tag, eff_S))
+            elif kind == "derive":
+                # a spectrum object derived from the response belongs to the caller, who normalises, scales or edits it
+                vs = [v for v in served_views() if v[0] in ("total", "sig") and expected(v)[1] > 0]
+                if not vs:
+                    ctx.ev(idx, "derive", "n/a")
+                    continue
+                v = vs[op["v"] % len(vs)]
+                how = ["normalize2", "devide_by", "inplace_scale", "element_write"][op["how"] % 4]
+                try:
+                    sp = resp.get_TwoDSpectrum(dtype=flag_of(v))
+                    if how == "normalize2":
+                        sp.normalize2()
+                    elif how == "devide_by":
+                        sp.devide_by(2.0)
+                    elif how == "inplace_scale":
+                        sp.data *= 3.0
+                    else:
+                        sp.data[0, 0] = 99.0
+                except Exception as e:
+                    ctx.ev(idx, "derive", how, "raised", type(e).__name__)
+                else:
+                    ctx.ev(idx, "derive", how, repr(v))
+                if LEVELS.index(st["S"]) == (0 if v[0] == "total" else 1):
+                    ctx.probe("derived_spectrum_of_a_stored_block_modified")
+                ctx.probe("derived_spectrum_modified")
+                check_views("op %d caller's %s on the spectrum derived for %r" % (idx, how, v))
+                ctx.cov("derive", how, st["S"], v[0])
+            elif kind == "setdata":
+                # the documented other way of filling a view: the `data` property under a data flag (what load_data does)
+                S = st["S"]
+                if not st["init"] and not (program.get("pre_setres") is not None and S == "off"):
+                    # an empty response takes data through the property as a total spectrum only, and only that case
+                    # (resolution explicitly 'off') is modelled
+                    ctx.ev(idx, "setdata", "n/a-fresh")
+                    continue
+                dts = DTYPES[S]
+                dt = dts[op["d"] % len(dts)]
+                tag = TAGS[op["tag"] % len(TAGS)] if S == "pathways" else None
+                if S == "pathways":
+                    view = ("tag", dt, tag)
+                elif S == "types":
+                    view = ("type", dt)
+                elif S == "processes":
+                    view = ("proc", dt)
+                elif S == "signals":
+                    view = ("sig", dt)
+                else:
+                    view = ("total",)
+                if expected(view)[1] > 0 or (S == "pathways" and expected(("type", dt))[1] > 0 and not any(
+                        e[0] == "pathways" and e[1] == dt for e in st["ledger"])):
+                    ctx.ev(idx, "setdata", "n/a")
+                    continue                      # only empty views are filled this way (a set on a filled view replaces)
+                X = payload(op["pay"])
+                before = snapshot()
+                was_init = st["init"]
+                try:
+                    resp.set_data_flag(flag_of(view))
+                    resp.set_data_writable()
+                    try:
+                        resp.data = X.copy()
+                    finally:
+                        resp.set_data_protected()
+                    raised = None
+                except Exception as e:
+                    raised = e
+                if raised is not None:
+                    # a refusal is tolerated, a change is not
+                    if was_init:
+                        check_unchanged(before, "op %d refused data assignment under flag %r" % (idx, flag_of(view)))
+                    ctx.ev(idx, "setdata", repr(view), "refused", type(raised).__name__)
+                    continue
+                st["init"] = True
+                st["ledger"].append((S, dt, tag if S == "pathways" else None, X, S))
+                accepted[0] += 1
+                if not was_init:
+                    ctx.probe("first_data_assigned_through_the_data_property")
+                check_views("op %d data assigned under flag %r at storage %s" % (idx, flag_of(view), S))
+                ctx.ev(idx, "setdata", repr(view), "accepted", fingerprint(X))
+                ctx.cov("setdata", S, was_init)
             elif kind == "setres":
                 do_setres(idx, LEVELS[op["r"] % 5], "op %d set_resolution(%r) at storage %s" % (idx, LEVELS[op["r"] % 5], st["S"]))
             elif kind == "container":
